@@ -663,7 +663,21 @@ func (x *Exec) resolveLoc(env *Env, loc string) (l Loc, err error) {
 	for fi := 0; fi < stru.NumFields(); fi++ {
 		if stru.Field(fi).Name() == fname {
 			if isStruct(stru.Field(fi).Type()) {
-				return l, fmt.Errorf("assigns %q: nested struct field; list its fields", loc)
+				// a nested struct: all of its leaf fields, at the sub-object reference
+				ft := stru.Field(fi).Type()
+				sub := env.st.subRef(base.C[0], st, fi)
+				var names []string
+				var sorts []Sort
+				fs := ft.Underlying().(*types.Struct)
+				for j := 0; j < fs.NumFields(); j++ {
+					if isStruct(fs.Field(j).Type()) {
+						continue
+					}
+					n, sr := fieldArrays(ft, j)
+					names = append(names, n...)
+					sorts = append(sorts, sr...)
+				}
+				return Loc{Arrays: names, Sorts: sorts, Ref: sub}, nil
 			}
 			names, sorts := fieldArrays(st, fi)
 			return Loc{Arrays: names, Sorts: sorts, Ref: base.C[0]}, nil
